@@ -404,12 +404,13 @@ def _names_sanitised(ck: Check, fm: FuncModel, names: set[str], depth: int) -> t
                 continue
             if isinstance(par, ast.Attribute) and par.attr in ("append", "extend", "add"):
                 continue
-            if isinstance(par, ast.Call) and callee_name(par) in ("sorted", "set", "frozenset", "len", "any", "all"):
+            if isinstance(par, ast.Call) and isinstance(par.func, ast.Name) and callee_name(par) in (
+                    "sorted", "set", "frozenset", "len", "any", "all", "max", "min", "sum") and n in par.args:
                 continue
             if isinstance(par, ast.comprehension):
                 comp = fm.f.parents.get(par)
                 cp = fm.f.parents.get(comp)
-                if isinstance(cp, ast.Call) and callee_name(cp) in ("any", "all", "set", "sorted", "sum"):
+                if isinstance(cp, ast.Call) and callee_name(cp) in ("any", "all", "set", "sorted", "sum", "max", "min", "frozenset", "len"):
                     continue
                 if isinstance(comp, (ast.SetComp, ast.DictComp)):
                     continue
